@@ -45,6 +45,9 @@ def run(eng, rep) -> None:
     from .lints import type_identity_keys
     type_identity_keys(eng, rep, "R02.9", ("fcp.serde",))
     rep.rule("R02.8", "a smallest-size function used in a rejecting guard is a true lower bound (absent Optional: 8 bits, empty string / dynamic array: 32 bits)")
+    rep.rule("R02.10", "a work-list walk of the codec puts every expansion back at the end it takes from (one order for all constructors)")
+    from .lints import mixed_worklist_ends
+    mixed_worklist_ends(eng, rep, "R02.10", ("fcp.serde",), "its bytes are written (or read) after the fields that follow it, which is not the canonical order")
     rep.assume("struct native 'f'/'d' = IEEE-754 little-endian on the host; ASCII restriction of strings is not checked")
     cc = find_cursor_class(eng)
     pr = Prims(eng, cc)
